@@ -1,6 +1,7 @@
 import ComposeVerif.Ops.Common
 import ComposeVerif.Model.C01Stages
 import ComposeVerif.Model.C01Cycles
+import ComposeVerif.Model.C01Reset
 /-! line-protocol ops for C01: stage walkers, cycle tracker, extends / include / depends_on loops -/
 open Lean
 namespace CV.Ops.C01
@@ -203,7 +204,36 @@ def checkCycleOp : Handler := fun args =>
   | .cycle p => Json.mkObj [("cycle", Json.arr (p.map Json.str).toArray)]
   | .outOfFuel => Json.mkObj [("outOfFuel", true)]
 
-def handlers : List (String × Handler) := [
+/-! ### alias expansion / `!reset` recording -/
+
+def natList (j : Json) : List Nat :=
+  match j with
+  | .arr a => a.toList.filterMap fun e => (e.getNat?).toOption
+  | _ => []
+
+def nodeOfJson (j : Json) : Reset.Node :=
+  let tag := getStr j "tag"
+  match getStr j "k" with
+  | "seq" => .seq tag (natList (getObj j "items"))
+  | "map" => .map tag (match getObj j "entries" with
+      | .arr a => a.toList.filterMap fun e => match e with
+        | .arr #[.str k, v] => (v.getNat?).toOption.map fun n => (k, n)
+        | _ => none
+      | _ => [])
+  | "alias" => .alias (getNat j "t")
+  | _ => .scalar tag
+
+def resetOp : Handler := fun args =>
+  let nodes := match getObj args "nodes" with
+    | .arr a => a.toList.map nodeOfJson
+    | _ => []
+  match Reset.run nodes (getNat args "root") 120 with
+  | .ok paths => Json.mkObj [("ok", Json.arr (paths.map fun p => Json.str (".".intercalate p)).toArray)]
+  | .error .cycle => Json.mkObj [("err", "cycle")]
+  | .error .outOfFuel => Json.mkObj [("outOfFuel", true)]
+  | .error .badIndex => bad "index"
+
+def handlers : List (String × Handler) := [("c01reset", resetOp),
   ("c01convert", convertOp), ("c01convertTop", convertTopOp), ("c01fixEmpty", fixEmptyOp), ("c01omitEmpty", omitEmptyOp),
   ("c01tracker", trackerOp), ("c01extends", extendsOp), ("c01include", includeOp), ("c01checkCycle", checkCycleOp)]
 
